@@ -12,7 +12,7 @@ from fractions import Fraction as F
 import numpy as np
 
 from mc.run import Res, item_from_record
-from mc import pomdpspec
+from mc import build, pomdpspec
 from mc.pomdpspec import PSpec, SpecPOMDP
 
 ID = 'C07'
@@ -63,7 +63,10 @@ def items(tier, seed):
     for gen in gens:
         for it in gen:
             i += 1
-            yield (it, (i + seed) % 6, (i // 2 + seed) % 3)
+            if i % 2 == 0:
+                # rewards that depend on the sampled successor (the belief reward weights them by the transition probabilities)
+                it = (it[0], build.with_ns_rewards(it[1]), it[2])
+            yield (it, (i + seed) % 6, (i // 6 + seed) % 3)
 
 
 def close(a, b):
